@@ -204,6 +204,8 @@ def run(db, cx):
                       "initializers: tracks are duplicated and new ones are dropped")
     cx.floor("partition_initializers call sites", n_part, 1)
 
+    shared.primaries_handoff(db, cx, "C02.1-primaries-handoff")
+
     # 4 ------------------------------------------------------------ status typestate
     shared.status_typestate(db, cx, "C02.4", eff)
 
